@@ -316,6 +316,7 @@ func ZZH_C18_pipeline() {
 // block, which is below the pool's own count when batches were lost with the leadership; a follower
 // reports every executed height). The next batch generated carries exactly the reset value plus one,
 // and the one after it plus two.
+// zz:also C20
 func ZZH_C18_seqno_reset() {
 	zz.ConcreteClock(1000)
 	batchSize := uint64(1)
@@ -345,6 +346,10 @@ func ZZH_C18_seqno_reset() {
 			return
 		}
 		zz.Assert("C18.reset.next-batch-follows-the-reset-value", b.Height == to+j)
+		// a reset moves the sequence number only: what was handed to consensus before is not handed
+		// out again (it may still commit - the proposals of a deposed leader stay in the raft log)
+		m.lastHeight = to + j - 1
+		zzCheckBatch(m, b, batchSize)
 	}
 }
 
